@@ -396,3 +396,14 @@ def run(ctx):
         "the dropped counter is read from the hook and from the SDK's `exporting spans` debug line",
         "goroutines blocked forever (former D2/D3) are C15's verdict; here such scenarios are marked non-quiescent",
     ]
+    # X02: inductive proof (Apalache, symbolic constants) of the parameterised core D this spec generalises -- thorough tier,
+    # evidence only: nothing in here can change the verdict or the exit code of this check (see checks/inductive.py)
+    if thorough:
+        try:
+            import importlib.util as _ilu
+            _s = _ilu.spec_from_file_location("verif_inductive", os.path.join(os.path.dirname(os.path.abspath(__file__)), "inductive.py"))
+            _m = _ilu.module_from_spec(_s)
+            _s.loader.exec_module(_m)
+            ctx.extra["inductive"] = _m.run_inductive(ctx, ["D"], budget_s=600)
+        except Exception as _e:  # never a verdict
+            ctx.extra["inductive"] = {"_error": repr(_e)}
